@@ -236,6 +236,8 @@ func c02Universe(big bool) (filters, topics []string) {
 		}
 	}
 	topics = append(topics, "$SYS", "$SYS/a", "$SYS/a/b", "$SYS/b", "$SYS/")
+	// '$' only matters at the start of the topic NAME: inner levels that begin with '$' are ordinary levels
+	topics = append(topics, "a/$b", "a/$SYS", "a/b/$c", "/$a", "$SYS/$a", "a/$")
 	return fs, topics
 }
 
